@@ -623,25 +623,25 @@ def plan_cases(g, rng, tier):
     add("empty", [[]], so=True)
     for n in (1, 2, 3, 5):
         add("tiny", [g.rows_mixed(n, g.syllables(rng.randint(2, 6)))])
-    reps = 10 if not big else 40
+    reps = 24 if not big else 80
     for _ in range(reps):
         s = g.syllables(rng.choice([2, 3, 5, 8, 13, 21, 34, 60]))
-        n = rng.choice([8, 20, 50, 120, 300] + ([800, 2000] if big else []))
+        n = rng.choice([8, 20, 50, 120, 300, 700] + ([1500, 3000] if big else []))
         add("mixed", [g.rows_mixed(n, s)])
-    for _ in range(3 if not big else 10):
+    for _ in range(5 if not big else 14):
         s = g.syllables(rng.choice([2, 4, 9, 30]))
         add("dense-tail", [g.rows_dense_tail(rng.choice([10, 60, 250] + ([1500] if big else [])), s)])
-    for _ in range(3 if not big else 8):
+    for _ in range(5 if not big else 12):
         s = g.syllables(rng.choice([2, 5, 12, 40]))
         add("words", [g.rows_words(rng.choice([5, 40, 200] + ([1500] if big else [])), s)])
-    for _ in range(3 if not big else 8):
+    for _ in range(5 if not big else 12):
         s = g.syllables(rng.choice([3, 8, 25]))
         k = rng.choice([2, 3])
         add("imports", [g.rows_mixed(rng.choice([5, 30, 120]), s) for _ in range(k)])
-    for _ in range(2 if not big else 6):
+    for _ in range(4 if not big else 10):
         s = g.syllables(rng.choice([6, 20, 60]))
         add("long-codes", [g.rows_mixed(rng.choice([30, 150]), s, lens=(4, 8), p_rep_code=0.2)])
-    for _ in range(2 if not big else 5):
+    for _ in range(4 if not big else 10):
         s = g.syllables(rng.choice([4, 10]))
         add("long-texts", [g.rows_mixed(rng.choice([10, 40]), s, long_text=0.7, p_rep_text=0.1)])
     for _ in range(2 if not big else 4):
@@ -663,7 +663,7 @@ def boundary_families(g, rng, tier):
     fams = []
     s60 = g.syllables(60)
     pool = [g.text() for _ in range(12)]
-    for ln in ((8, 5) if tier == "quick" else (8, 7, 6, 5, 4)):
+    for ln in ((8, 6) if tier == "quick" else (8, 7, 6, 5, 4)):
         def fam(n, ln=ln, seed=rng.randint(0, 1 << 30)):
             gg = Gen(random.Random(seed))
             return gg.make("b", "boundary-sparse-%d" % ln, [gg.rows_sparse(n, s60, ln, text_pool=pool)], False, [None])
@@ -956,8 +956,28 @@ def run(ctx):
 
 MANIFEST = {
     "category": "proof",
-    "technique": "Coq model of EntryCollector/Vocabulary/Table index/MappedFile with theorems; struct layout and size-estimate "
-                 "translator; extracted-model vs real DictCompiler correspondence aimed at the model's allocation-budget boundary",
-    "text": "placeholder",
-    "note": "placeholder",
+    "technique": "Coq model of EntryCollector / Vocabulary / the four-level table index / MappedFile allocation with theorems for all "
+                 "sources; struct-layout and size-estimate translator; extracted-model vs real DictCompiler correspondence aimed at the "
+                 "allocation-budget boundary the model computes",
+    "text": "Properties_C06.v proves, for every source (any files, column orders, rows, alphabets, code lengths): walking the built index "
+            "as tools/rime_table_decompiler.cc does yields exactly the collected entries, each under its own full code (index code + extra "
+            "code), text and cast weight, as a multiset (C06_enumerate_build); the collected entries are exactly the source rows that carry "
+            "a code - none invented, none lost, multi-syllable rows one for one in order (C06_nothing_invented / _nothing_lost / "
+            "_phrases_one_for_one); entries sharing a code are enumerated in non-increasing weight for every monotone cast unless the "
+            "original order is requested (C06_same_code_sorted); the reverse table records for a text exactly its one-syllable codes "
+            "(C06_reverse_lookup_exact); Table::Build over the growing mapped file never uses a stale pointer nor remaps when "
+            "bytes_needed fits the created capacity (C06_build_never_remaps), which the historical estimate 4096+32S+64N does not "
+            "guarantee (C06_linear_estimate_refuted, computed witnesses) and the current source does for every vocabulary and image size "
+            "(C06_current_build_never_fails, over the layout, estimate and remap facts re-translated from table.h/table.cc/mapped_file.h "
+            "on every run).  The extracted model is diffed against the real DictCompiler/Table/ReverseDb (ASan) on generated sources: "
+            "enumeration, QueryPhrases, reverse lookups, file size = bytes_needed, capacity = estimate.",
+    "note": "No axioms (Print Assumptions: closed under the global context). Trusted: Coq kernel + vm_compute; gen/table_layout.py "
+            "(sizeof probe + lexical extraction, refuses with EstUnrecognised; IndexSize() itself is not translated - the capacity it "
+            "yields is compared with the model's on every case); ExtrOcamlBasic extraction and the OCaml/C++/Python glue. Modelled, not "
+            "verified: marisa (abstract string<->id bijection, image size taken from the implementation), yaml-cpp header parsing "
+            "(the model receives column indices and the sort flag), std::stod/log/float cast (exact decimals + abstract monotone cast; "
+            "generated weights are >= 1% apart or equal), std::sort's order among equal weights (compared as multisets). Not modelled: "
+            "rows without a code (phrase encoder), preset vocabulary, stems, table packs. Reverse lookup is stated for what ReverseDb "
+            "stores by design: one-syllable codes. Duplicate definitions of one word with one code collapse to the first "
+            "(EntryCollector's documented behaviour) - the oracle accepts that. The correspondence is testing and only validates the model.",
 }
